@@ -183,7 +183,7 @@ func c07Alphabet(quick bool) []SeqOp {
 	app := protocol.NewLockCommandDataAppendString("w").Data
 	a := []SeqOp{
 		op(0, withEF(L(0, 1, 1, 0, 50, 1, 2), efZeroAof)),
-		op(0, withEF(L(0, 1, 2, 0, 40, 1, 0), 0)),
+		op(0, withEF(L(0, 1, 2, 0, 40, 1, 2), 0)), // default persistence delay, re-enterable before it is first persisted
 		op(0, withEF(L(0, 1, 3, 0, 30, 2, 0), efNeverAof)),
 		op(0, withEF(L(0, 2, 1, 0, 3, 0, 0), efZeroAof|fMinute)),
 		op(1, dbc(withEF(L(0, 1, 1, 0, 20, 0, 1), efZeroAof), 1)),
